@@ -106,3 +106,14 @@ func GenRunning(t *rapid.T) *RunningCase {
 	c.CancelMs = rapid.IntRange(0, 60).Draw(t, "cancelAt")
 	return c
 }
+
+func GenPanicWork(t *rapid.T) *PanicWorkCase {
+	c := &PanicWorkCase{Pubs: rapid.IntRange(1, 8).Draw(t, "pubs"), PHMs: rapid.SampledFrom([]int{0, 1, 5, 30}).Draw(t, "phMs"),
+		DLMs: rapid.SampledFrom([]int{0, 1, 10}).Draw(t, "dlMs"), Shutdown: rapid.IntRange(0, 2).Draw(t, "shutdown") == 0,
+		Procs: rapid.SampledFrom([]int{1, 2, 4, 16}).Draw(t, "procs")}
+	n := rapid.IntRange(1, 3).Draw(t, "nh")
+	for i := 0; i < n; i++ {
+		c.Handlers = append(c.Handlers, PWH{Seq: rapid.Bool().Draw(t, "seq"), PanicMod: rapid.SampledFrom([]int{0, 1, 1, 2, 3}).Draw(t, "panicMod"), WorkMs: rapid.SampledFrom([]int{0, 1, 4}).Draw(t, "work")})
+	}
+	return c
+}
